@@ -10,6 +10,8 @@ from .. import observe, noisy, docmodel, workloads, corpus, probe
 from ..common import h64, short
 from .base import rng, shards, apply_parse_monitors, cover_transitions, outcome_key, ReusedEnv
 
+from gherkin.parser import Parser
+
 ID = "C01"
 LEVEL = "exploration"
 RULE = ("Source texts from five generators (W5 hostile Unicode fragment strings, structured hostile outlines, "
@@ -83,6 +85,25 @@ def check_text(text, M, case, idx=0, full=True):
     if (a.status == "ok") != (b.status == "ok") and "crash" not in (a.status, b.status):
         M.violation("G1.modes", {"what": "accepted in one error mode and rejected in the other",
                                  "collect": a.status, "stop": b.status}, case, mechanism=observe.f1_mechanism(a))
+    if full and idx % 2 == 0:
+        # another configuration of the same public API: the parser built with the token-listing builder of the package
+        # (scripts/generate_tokens.py): a listing (str) or the library's parser error, nothing else
+        from gherkin.token_formatter_builder import TokenFormatterBuilder
+        from gherkin.errors import ParserError as _PE
+        with probe.auditing() as opened_tf:
+            try:
+                with observe.cpu_budget(observe.budget_for(text)):
+                    res = Parser(TokenFormatterBuilder()).parse(text)
+                M.count("formatter_parses")
+                if not isinstance(res, str):
+                    M.violation("G1.formatter", {"what": "Parser(TokenFormatterBuilder()).parse did not return a listing", "value": repr(res)[:100]}, case)
+            except _PE:
+                M.count("formatter_parses")
+            except (Exception, observe.CpuBudgetExceeded, probe.WorkBoundExceeded) as e:
+                M.count("formatter_parses")
+                M.violation("G1.formatter", {"what": "exception other than ParserError escaped Parser(TokenFormatterBuilder()).parse", "type": type(e).__name__,
+                                             "repr": repr(e)[:200], "origin": observe._origin(e)}, case,
+                            mechanism=observe.F1 if text in opened_tf else None)
     if full:
         opts = OPTS[idx % 8]
         enum_stop = (idx % 3 == 0)
